@@ -44,7 +44,7 @@ def parse_model(line):
 
 
 # harness/interp.go hostNames minus host_names of coq/Interp/InterpDriver.v
-IMPL_ONLY_HOSTS = re.compile(r"\b(mkdur|mkvals|mkints|mkptr|hsend|hcall0|hcall1|hcallr|hcall2|mkarr|mkarrs)\b")
+IMPL_ONLY_HOSTS = re.compile(r"\b(mkdur|mkvals|mkints|mkptr|hsend|hcall0|hcall1|hcallr|hcall2|mkarr|mkarrs|hsum|hjoin|hfix2t)\b")
 
 
 def run_interp_check(pid, gen, fields, counts, tier, seed, rule, design_ref, extra_assumptions=(), known_sig=None,
